@@ -484,6 +484,22 @@ theorem run_rel (base : Cid → Resources) (rs : List (Plugin × Response)) :
     for the container being updated, empty normalised resources for every other container -/
 def baseOf (st0 : State) : Cid → Resources := fun c => if isOwn st0.kind c then st0.reqRes else normRes {}
 
+/-- the base the correspondence driver uses (`Driver/Merge.lean: simBase`): the normalised
+    requested resources for the container an update request updates, normalised empty
+    resources for every other container -/
+def specBase (k : Kind) (req : Resources) : Cid → Resources :=
+  fun c => if isOwn k c then normRes req else normRes {}
+
+theorem baseOf_initUpdate (id : Cid) (req : Resources) :
+    baseOf (initUpdate id req) = specBase (.update id) req := rfl
+
+theorem baseOf_initStop (req : Resources) : baseOf initStop = specBase .stop req := by
+  funext c; simp [baseOf, specBase, initStop, isOwn]
+
+theorem baseOf_initCreate (c0 : Container) (req : Resources) :
+    baseOf (initCreate c0) = specBase (.create c0.id) req := by
+  funext c; simp [baseOf, specBase, initCreate, isOwn]
+
 theorem rel_fresh (st0 : State) (h1 : st0.updates = []) (h3 : st0.owners = []) :
     Rel (baseOf st0) st0 {} := by
   constructor
